@@ -421,142 +421,234 @@ Definition ir_implementers (s : schema) (iface : str) : list ext_type :=
 Definition ir_with_incl (args : list argument) (k : bool -> ir_res) : ir_res :=
   match ir_incl_dep args with Some b => k b | None => IrrBad 3 end.
 
-Definition ir_resolve_type (s : schema) (t : ext_type) (f : str) (args : list argument) : ir_res :=
-  if streq f irk_kind then IrrLeaf (IrStr (ir_kind t))
-  else if streq f irk_name then IrrLeaf (IrStr (et_name t))
-  else if streq f irk_description then IrrLeaf (ir_opt_str (ir_et_desc t))
-  else if streq f irk_fields then
-    match t with
-    | EObject _ _ _ _ fs _ | EInterface _ _ _ _ fs _ =>
-        ir_with_incl args (fun b => IrrFields (filter (fun x => ir_keep b (fd_dirs x)) (ir_cvals fs)))
-    | _ => IrrNull
-    end
-  else if streq f irk_interfaces then
-    match t with
-    | EObject _ _ impls _ _ _ | EInterface _ _ impls _ _ _ => ir_named_list s (ir_cvals impls)
-    | _ => IrrNull
-    end
-  else if streq f irk_possibleTypes then
-    match t with
-    | EInterface _ n _ _ _ _ => IrrTypes true (ir_implementers s n)
-    | EUnion _ _ _ members _ => ir_named_list s (ir_cvals members)
-    | _ => IrrNull
-    end
-  else if streq f irk_enumValues then
-    match t with
-    | EEnum _ _ _ vs _ =>
-        ir_with_incl args (fun b => IrrEnumVals (filter (fun x => ir_keep b (ev_dirs x)) (ir_cvals vs)))
-    | _ => IrrNull
-    end
-  else if streq f irk_inputFields then
-    match t with
-    | EInput _ _ _ fs _ =>
-        ir_with_incl args (fun b => IrrInputs (filter (fun x => ir_keep b (iv_dirs x)) (ir_cvals fs)))
-    | _ => IrrNull
-    end
-  else if streq f irk_ofType then IrrNull
-  else if streq f irk_specifiedByURL then
-    match t with
-    | EScalar _ _ dirs _ =>
-        match ir_find_dir irk_specifiedBy (ir_cvals dirs) with
-        | Some d => match ir_find_arg irk_url (d_args d) with
-                    | Some (VString u) => IrrLeaf (IrStr u)
-                    | _ => IrrBad 11
-                    end
-        | None => IrrNull
+(* the field names of the introspection schema, decoded once *)
+Inductive ir_fld :=
+| IrfTypename | IrfSchema | IrfTypeMeta | IrfDescription | IrfTypes | IrfQueryType | IrfMutationType
+| IrfSubscriptionType | IrfDirectives | IrfKind | IrfName | IrfFields | IrfInterfaces | IrfPossibleTypes
+| IrfEnumValues | IrfInputFields | IrfOfType | IrfSpecifiedByURL | IrfArgs | IrfType | IrfIsDeprecated
+| IrfDeprecationReason | IrfDefaultValue | IrfLocations | IrfIsRepeatable.
+
+Definition ir_fld_table : list (str * ir_fld) :=
+  [ (irk_uutypename, IrfTypename); (irk_uuschema, IrfSchema); (irk_uutype, IrfTypeMeta);
+    (irk_description, IrfDescription); (irk_types, IrfTypes); (irk_queryType, IrfQueryType);
+    (irk_mutationType, IrfMutationType); (irk_subscriptionType, IrfSubscriptionType);
+    (irk_directives, IrfDirectives); (irk_kind, IrfKind); (irk_name, IrfName); (irk_fields, IrfFields);
+    (irk_interfaces, IrfInterfaces); (irk_possibleTypes, IrfPossibleTypes); (irk_enumValues, IrfEnumValues);
+    (irk_inputFields, IrfInputFields); (irk_ofType, IrfOfType); (irk_specifiedByURL, IrfSpecifiedByURL);
+    (irk_args, IrfArgs); (irk_type, IrfType); (irk_isDeprecated, IrfIsDeprecated);
+    (irk_deprecationReason, IrfDeprecationReason); (irk_defaultValue, IrfDefaultValue);
+    (irk_locations, IrfLocations); (irk_isRepeatable, IrfIsRepeatable) ].
+Fixpoint ir_assoc {A} (k : str) (l : list (str * A)) : option A :=
+  match l with
+  | [] => None
+  | (k', v) :: r => if streq k k' then Some v else ir_assoc k r
+  end.
+Definition ir_fld_of (f : str) : option ir_fld := ir_assoc f ir_fld_table.
+
+(* which field belongs to which introspection type (4.2; agreement with `ir_spec_types` is a lemma) *)
+Definition ir_fld_in (node : ir_node) (fl : ir_fld) : bool :=
+  match fl with
+  | IrfTypename => true
+  | _ =>
+    match node with
+    | IrnRoot _ => match fl with IrfSchema | IrfTypeMeta => true | _ => false end
+    | IrnSchema =>
+        match fl with
+        | IrfDescription | IrfTypes | IrfQueryType | IrfMutationType | IrfSubscriptionType | IrfDirectives => true
+        | _ => false
         end
-    | _ => IrrNull
+    | IrnType _ | IrnWrap _ =>
+        match fl with
+        | IrfKind | IrfName | IrfDescription | IrfFields | IrfInterfaces | IrfPossibleTypes | IrfEnumValues
+        | IrfInputFields | IrfOfType | IrfSpecifiedByURL => true
+        | _ => false
+        end
+    | IrnField _ =>
+        match fl with
+        | IrfName | IrfDescription | IrfArgs | IrfType | IrfIsDeprecated | IrfDeprecationReason => true
+        | _ => false
+        end
+    | IrnInput _ =>
+        match fl with
+        | IrfName | IrfDescription | IrfType | IrfDefaultValue | IrfIsDeprecated | IrfDeprecationReason => true
+        | _ => false
+        end
+    | IrnEnumVal _ =>
+        match fl with
+        | IrfName | IrfDescription | IrfIsDeprecated | IrfDeprecationReason => true
+        | _ => false
+        end
+    | IrnDirective _ =>
+        match fl with
+        | IrfName | IrfDescription | IrfLocations | IrfArgs | IrfIsRepeatable => true
+        | _ => false
+        end
     end
-  else IrrBad 2.
+  end.
 
-Definition ir_resolve_wrap (s : schema) (t : ty) (f : str) : ir_res :=
-  if streq f irk_kind then
-    match t with
-    | TList _ => IrrLeaf (IrStr irk_LIST)
-    | TNonNullNamed _ | TNonNullList _ => IrrLeaf (IrStr irk_NON_NULL)
-    | TNamed _ => IrrBad 13
-    end
-  else if streq f irk_ofType then
-    match t with
-    | TList i => ir_type_ref s i
-    | TNonNullNamed n => ir_named s n
-    | TNonNullList i => IrrNode (IrnWrap (TList i))
-    | TNamed _ => IrrBad 13
-    end
-  else if streq f irk_name || streq f irk_description || streq f irk_fields || streq f irk_interfaces
-          || streq f irk_possibleTypes || streq f irk_enumValues || streq f irk_inputFields
-          || streq f irk_specifiedByURL then IrrNull
-  else IrrBad 2.
+(* 4.2.2: the fields of a named type, by kind *)
+Definition ir_resolve_type (s : schema) (t : ext_type) (fl : ir_fld) (args : list argument) : ir_res :=
+  match fl with
+  | IrfKind => IrrLeaf (IrStr (ir_kind t))
+  | IrfName => IrrLeaf (IrStr (et_name t))
+  | IrfDescription => IrrLeaf (ir_opt_str (ir_et_desc t))
+  | IrfFields =>
+      match t with
+      | EObject _ _ _ _ fs _ | EInterface _ _ _ _ fs _ =>
+          ir_with_incl args (fun b => IrrFields (filter (fun x => ir_keep b (fd_dirs x)) (ir_cvals fs)))
+      | _ => IrrNull
+      end
+  | IrfInterfaces =>
+      match t with
+      | EObject _ _ impls _ _ _ | EInterface _ _ impls _ _ _ => ir_named_list s (ir_cvals impls)
+      | _ => IrrNull
+      end
+  | IrfPossibleTypes =>
+      match t with
+      | EInterface _ n _ _ _ _ => IrrTypes true (ir_implementers s n)
+      | EUnion _ _ _ members _ => ir_named_list s (ir_cvals members)
+      | _ => IrrNull
+      end
+  | IrfEnumValues =>
+      match t with
+      | EEnum _ _ _ vs _ =>
+          ir_with_incl args (fun b => IrrEnumVals (filter (fun x => ir_keep b (ev_dirs x)) (ir_cvals vs)))
+      | _ => IrrNull
+      end
+  | IrfInputFields =>
+      match t with
+      | EInput _ _ _ fs _ =>
+          ir_with_incl args (fun b => IrrInputs (filter (fun x => ir_keep b (iv_dirs x)) (ir_cvals fs)))
+      | _ => IrrNull
+      end
+  | IrfOfType => IrrNull
+  | IrfSpecifiedByURL =>
+      match t with
+      | EScalar _ _ dirs _ =>
+          match ir_find_dir irk_specifiedBy (ir_cvals dirs) with
+          | Some d => match ir_find_arg irk_url (d_args d) with
+                      | Some (VString u) => IrrLeaf (IrStr u)
+                      | _ => IrrBad 11
+                      end
+          | None => IrrNull
+          end
+      | _ => IrrNull
+      end
+  | _ => IrrBad 2
+  end.
 
-Definition ir_resolve_input (s : schema) (i : inputvaldef) (f : str) : ir_res :=
-  if streq f irk_name then IrrLeaf (IrStr (iv_name i))
-  else if streq f irk_description then IrrLeaf (ir_opt_str (iv_desc i))
-  else if streq f irk_type then ir_type_ref s (iv_ty i)
-  else if streq f irk_defaultValue then
-    match ir_default_string s i with
-    | Some o => IrrLeaf (ir_opt_str o)
-    | None => IrrBad 12
-    end
-  else if streq f irk_isDeprecated then IrrLeaf (IrBool (ir_is_deprecated (iv_dirs i)))
-  else if streq f irk_deprecationReason then ir_dep_reason (iv_dirs i)
-  else IrrBad 2.
+(* 4.2.2: LIST and NON_NULL *)
+Definition ir_resolve_wrap (s : schema) (t : ty) (fl : ir_fld) : ir_res :=
+  match fl with
+  | IrfKind =>
+      match t with
+      | TList _ => IrrLeaf (IrStr irk_LIST)
+      | TNonNullNamed _ | TNonNullList _ => IrrLeaf (IrStr irk_NON_NULL)
+      | TNamed _ => IrrBad 13
+      end
+  | IrfOfType =>
+      match t with
+      | TList i => ir_type_ref s i
+      | TNonNullNamed n => ir_named s n
+      | TNonNullList i => IrrNode (IrnWrap (TList i))
+      | TNamed _ => IrrBad 13
+      end
+  | IrfName | IrfDescription | IrfFields | IrfInterfaces | IrfPossibleTypes | IrfEnumValues | IrfInputFields
+  | IrfSpecifiedByURL => IrrNull
+  | _ => IrrBad 2
+  end.
+
+Definition ir_resolve_input (s : schema) (i : inputvaldef) (fl : ir_fld) : ir_res :=
+  match fl with
+  | IrfName => IrrLeaf (IrStr (iv_name i))
+  | IrfDescription => IrrLeaf (ir_opt_str (iv_desc i))
+  | IrfType => ir_type_ref s (iv_ty i)
+  | IrfDefaultValue =>
+      match ir_default_string s i with
+      | Some o => IrrLeaf (ir_opt_str o)
+      | None => IrrBad 12
+      end
+  | IrfIsDeprecated => IrrLeaf (IrBool (ir_is_deprecated (iv_dirs i)))
+  | IrfDeprecationReason => ir_dep_reason (iv_dirs i)
+  | _ => IrrBad 2
+  end.
 
 Definition ir_root_ok (s : schema) (tyname : str) : bool :=
   match sd_query (sch_def s) with Some c => streq (c_val c) tyname | None => false end.
 
-Definition ir_resolve (s : schema) (node : ir_node) (f : str) (args : list argument) : ir_res :=
-  if streq f irk_uutypename then IrrLeaf (IrStr (ir_typename node)) (* 4.1 *)
-  else
+Definition ir_resolve_fld (s : schema) (node : ir_node) (fl : ir_fld) (args : list argument) : ir_res :=
+  match fl with
+  | IrfTypename => IrrLeaf (IrStr (ir_typename node)) (* 4.1 *)
+  | _ =>
   match node with
   | IrnRoot tyname =>
-      if streq f irk_uuschema then (if ir_root_ok s tyname then IrrNode IrnSchema else IrrBad 4)
-      else if streq f irk_uutype then
-        (if ir_root_ok s tyname then
-           match ir_find_arg irk_name args with
-           | Some (VString n) =>
-               match sch_get_type s n with Some t => IrrNode (IrnType t) | None => IrrNull end
-           | _ => IrrBad 3
-           end
-         else IrrBad 4)
-      else IrrSkip
+      match fl with
+      | IrfSchema => if ir_root_ok s tyname then IrrNode IrnSchema else IrrBad 4
+      | IrfTypeMeta =>
+          if ir_root_ok s tyname then
+            match ir_find_arg irk_name args with
+            | Some (VString n) =>
+                match sch_get_type s n with Some t => IrrNode (IrnType t) | None => IrrNull end
+            | _ => IrrBad 3
+            end
+          else IrrBad 4
+      | _ => IrrSkip
+      end
   | IrnSchema =>
-      if streq f irk_description then IrrLeaf (ir_opt_str (sd_desc (sch_def s)))
-      else if streq f irk_types then IrrTypes true (sch_types s)
-      else if streq f irk_directives then IrrDirectives (sch_dirdefs s)
-      else if streq f irk_queryType then
-        match sd_query (sch_def s) with Some c => ir_named s (c_val c) | None => IrrBad 10 end
-      else if streq f irk_mutationType then
-        match sd_mutation (sch_def s) with Some c => ir_named s (c_val c) | None => IrrNull end
-      else if streq f irk_subscriptionType then
-        match sd_subscription (sch_def s) with Some c => ir_named s (c_val c) | None => IrrNull end
-      else IrrBad 2
-  | IrnType t => ir_resolve_type s t f args
-  | IrnWrap t => ir_resolve_wrap s t f
+      match fl with
+      | IrfDescription => IrrLeaf (ir_opt_str (sd_desc (sch_def s)))
+      | IrfTypes => IrrTypes true (sch_types s)
+      | IrfDirectives => IrrDirectives (sch_dirdefs s)
+      | IrfQueryType =>
+          match sd_query (sch_def s) with Some c => ir_named s (c_val c) | None => IrrBad 10 end
+      | IrfMutationType =>
+          match sd_mutation (sch_def s) with Some c => ir_named s (c_val c) | None => IrrNull end
+      | IrfSubscriptionType =>
+          match sd_subscription (sch_def s) with Some c => ir_named s (c_val c) | None => IrrNull end
+      | _ => IrrBad 2
+      end
+  | IrnType t => ir_resolve_type s t fl args
+  | IrnWrap t => ir_resolve_wrap s t fl
   | IrnField fd =>
-      if streq f irk_name then IrrLeaf (IrStr (fd_name fd))
-      else if streq f irk_description then IrrLeaf (ir_opt_str (fd_desc fd))
-      else if streq f irk_args then
-        ir_with_incl args (fun b => IrrInputs (filter (fun x => ir_keep b (iv_dirs x)) (fd_args fd)))
-      else if streq f irk_type then ir_type_ref s (fd_ty fd)
-      else if streq f irk_isDeprecated then IrrLeaf (IrBool (ir_is_deprecated (fd_dirs fd)))
-      else if streq f irk_deprecationReason then ir_dep_reason (fd_dirs fd)
-      else IrrBad 2
-  | IrnInput i => ir_resolve_input s i f
+      match fl with
+      | IrfName => IrrLeaf (IrStr (fd_name fd))
+      | IrfDescription => IrrLeaf (ir_opt_str (fd_desc fd))
+      | IrfArgs =>
+          ir_with_incl args (fun b => IrrInputs (filter (fun x => ir_keep b (iv_dirs x)) (fd_args fd)))
+      | IrfType => ir_type_ref s (fd_ty fd)
+      | IrfIsDeprecated => IrrLeaf (IrBool (ir_is_deprecated (fd_dirs fd)))
+      | IrfDeprecationReason => ir_dep_reason (fd_dirs fd)
+      | _ => IrrBad 2
+      end
+  | IrnInput i => ir_resolve_input s i fl
   | IrnEnumVal e =>
-      if streq f irk_name then IrrLeaf (IrStr (ev_value e))
-      else if streq f irk_description then IrrLeaf (ir_opt_str (ev_desc e))
-      else if streq f irk_isDeprecated then IrrLeaf (IrBool (ir_is_deprecated (ev_dirs e)))
-      else if streq f irk_deprecationReason then ir_dep_reason (ev_dirs e)
-      else IrrBad 2
+      match fl with
+      | IrfName => IrrLeaf (IrStr (ev_value e))
+      | IrfDescription => IrrLeaf (ir_opt_str (ev_desc e))
+      | IrfIsDeprecated => IrrLeaf (IrBool (ir_is_deprecated (ev_dirs e)))
+      | IrfDeprecationReason => ir_dep_reason (ev_dirs e)
+      | _ => IrrBad 2
+      end
   | IrnDirective d =>
-      if streq f irk_name then IrrLeaf (IrStr (dd_name d))
-      else if streq f irk_description then IrrLeaf (ir_opt_str (dd_desc d))
-      else if streq f irk_locations then
-        IrrLeaf (IrArr false (map (fun l => IrStr (ir_loc_name l)) (dd_locs d)))
-      else if streq f irk_args then
-        ir_with_incl args (fun b => IrrInputs (filter (fun x => ir_keep b (iv_dirs x)) (dd_args d)))
-      else if streq f irk_isRepeatable then IrrLeaf (IrBool (dd_repeatable d))
-      else IrrBad 2
+      match fl with
+      | IrfName => IrrLeaf (IrStr (dd_name d))
+      | IrfDescription => IrrLeaf (ir_opt_str (dd_desc d))
+      | IrfLocations => IrrLeaf (IrArr false (map (fun l => IrStr (ir_loc_name l)) (dd_locs d)))
+      | IrfArgs =>
+          ir_with_incl args (fun b => IrrInputs (filter (fun x => ir_keep b (iv_dirs x)) (dd_args d)))
+      | IrfIsRepeatable => IrrLeaf (IrBool (dd_repeatable d))
+      | _ => IrrBad 2
+      end
+  end
+  end.
+
+(* a root field that is not one of the three meta-fields is concrete: partial execution skips it;
+   any other node only has the fields of its introspection type *)
+Definition ir_resolve (s : schema) (node : ir_node) (f : str) (args : list argument) : ir_res :=
+  match ir_fld_of f with
+  | Some fl => if ir_fld_in node fl then ir_resolve_fld s node fl args
+               else match node with IrnRoot _ => IrrSkip | _ => IrrBad 2 end
+  | None => match node with IrnRoot _ => IrrSkip | _ => IrrBad 2 end
   end.
 
 (* ------------------------------------------------------------------------------ CollectFields (6.3.2) *)
@@ -664,18 +756,8 @@ Fixpoint ir_collect (fuel : nat) (s : schema) (doc : document) (tyname : str) (s
   end.
 
 (* --------------------------------------------------------- ExecuteSelectionSet / CompleteValue (6.3, 6.4) *)
-(* a field of a meta node must be a field of the introspection schema above (or __typename);
-   root fields other than the three meta-fields are concrete and skipped *)
-Definition ir_field_known (node : ir_node) (f : str) : bool :=
-  match node with
-  | IrnRoot _ => true
-  | _ => streq f irk_uutypename
-         || match ir_meta_field (ir_typename node) f with Some _ => true | None => false end
-  end.
-
 Definition ir_run_group (exec : ir_node -> list selection -> IrJson) (s : schema) (node : ir_node)
   (g : ir_group) : list (str * IrJson) :=
-  if negb (ir_field_known node (irg_name g)) then [(irg_key g, IrErr 2)] else
   match ir_resolve s node (irg_name g) (irg_args g) with
   | IrrSkip => []
   | IrrNull => [(irg_key g, IrNull)]
@@ -915,7 +997,7 @@ Definition ir_fd_wf (s : schema) (f : fielddef) : bool :=
 Definition ir_type_wf (s : schema) (t : ext_type) : bool :=
   match t with
   | EScalar _ _ dirs _ =>
-      match ir_resolve_type s t irk_specifiedByURL [] with IrrBad _ => false | _ => true end
+      match ir_resolve_type s t IrfSpecifiedByURL [] with IrrBad _ => false | _ => true end
   | EObject _ _ impls _ fs _ | EInterface _ _ impls _ fs _ =>
       forallb (fun c => ir_resolves s (c_val c)) impls && forallb (fun c => ir_fd_wf s (c_val c)) fs
   | EUnion _ _ _ members _ => forallb (fun c => ir_resolves s (c_val c)) members
